@@ -261,6 +261,9 @@ bool StepScript(InterpreterEnv& env)
         if (((env.flags & SCRIPT_VERIFY_SIGPUSHONLY) || spk_is_p2sh) && !script.IsPushOnly())
             return set_error(serror, SCRIPT_ERR_SIG_PUSHONLY);
         env.altstack.clear();
+        // every script that is evaluated is subject to the size limit, not only the first one of the session
+        if (env.successor_script.size() > MAX_SCRIPT_SIZE)
+            return set_error(serror, SCRIPT_ERR_SCRIPT_SIZE);
         script = env.successor_script;
         env.successor_script.clear();
         pc = env.pbegincodehash = script.begin();
